@@ -50,7 +50,7 @@ Definition as_input (d : doc) : option doc :=
                 (d_rates d)
                 (zip_with prow_as_input (d_advances d) (t_adv_rows t))
                 (zip_with prow_as_input (d_dues d) (t_dues t))
-                (d_rounding d))
+                (t_rounding t))
   | Some lcs, NoTotals _ =>
     Some (mkDoc (d_c d) (d_currency_rule d) (d_pit d) (d_cur d)
                 (zip_with (line_as_input (d_c d)) (d_lines d) lcs) [] [] (d_rates d)
